@@ -175,5 +175,9 @@ def run(ctx):
             r4.ok(h.name, "new-default", "out-of-range -> Err(Param)")
     r6 = ctx.rule("R12.6", "history bound: every admitted match distance is at most dict.size (zero after a Full flush)", floor=3, config=cfg)
     dp.rule_history_bound(ctx, cfg, r6)
+    from rules import tables as _tables
+    r7 = ctx.rule("R12.7", "every block is coded with tables built for it: a fixed block rewrites the RFC 1951 lengths and rebuilds both code tables on every path "
+                  "(flush points produce many small fixed blocks between dynamic ones)", floor=1, config=cfg)
+    _tables.rule_fixed_tables_every_block(ctx, cfg, r7)
     r5 = ctx.rule("R12.5", "deflate(): exits of the driver loop (non-Finish flush leaves only on error, output full, input empty)", floor=8, config=cfg)
     c14.deflate_table(ctx, cfg, r5, r5, r5, r5)
